@@ -50,6 +50,9 @@ var guardSpecs = []guardSpec{
 	{"callObservationGuard", "pkg/controller.v1beta1/trial/trial_controller.go", "reconcileTrial", "r.UpdateTrialStatusObservation(instance)", rtAtoms, rtParams},
 	{"requeueNoMetricsGuard", "pkg/controller.v1beta1/trial/trial_controller.go", "reconcileTrial", "ident:errMetricsNotReported", rtAtoms, rtParams},
 	{"callUpdateConditionGuard", "pkg/controller.v1beta1/trial/trial_controller.go", "reconcileTrial", "r.UpdateTrialStatusCondition(", rtAtoms, rtParams},
+	{"callGetSuggestionsGuard", "pkg/controller.v1beta1/suggestion/suggestionclient/suggestionclient.go", "SyncAssignments", "rpcClientSuggestion.GetSuggestions(", syncAtoms, syncParams},
+	{"callGetRulesGuard", "pkg/controller.v1beta1/suggestion/suggestionclient/suggestionclient.go", "SyncAssignments", "rpcClientEarlyStopping.GetEarlyStoppingRules(", syncAtoms, syncParams},
+	{"appendAssignmentsGuard", "pkg/controller.v1beta1/suggestion/suggestionclient/suggestionclient.go", "SyncAssignments", "append(instance.Status.Suggestions, trialAssignments...)", syncAtoms, syncParams},
 	{"sugRestartGuard", "pkg/controller.v1beta1/experiment/experiment_controller_util.go", "restartSuggestion", "original.DeepCopy()",
 		map[string]string{"err != nil": "getFailed", "errors.IsNotFound(err)": "notFound", "original.IsCompleted()": "sugCompleted", "original.IsRestarting()": "sugRestarting", "original.IsSucceeded()": "sugSucceeded", "instance.IsRestarting()": "expRestarting"},
 		[]string{"getFailed", "notFound", "sugCompleted", "sugRestarting", "sugSucceeded", "expRestarting"}},
@@ -84,6 +87,13 @@ var rtAtoms = map[string]string{
 }
 var rtParams = []string{"callFailed", "jobPresent", "completed", "earlyStopped", "noJobStatus", "jobSucceeded", "observationNil", "push"}
 
+var syncAtoms = map[string]string{
+	"err != nil": "failed#", "currentRequestNum <= 0": "nothingRequested", "instance.Spec.EarlyStopping != nil": "esSet",
+	"len(responseSuggestion.ParameterAssignments) != currentRequestNum": "wrongSize",
+	"responseSuggestion.Algorithm != nil":                               "replyHasSettings",
+}
+var syncParams = []string{"nothingRequested", "failed1", "failed2", "wrongSize", "esSet", "failed3", "failed4", "replyHasSettings"}
+
 var verdictAtoms = map[string]string{
 	"jobStatus.Condition == trialutil.JobSucceeded": "jobSucceeded", "jobStatus.Condition == trialutil.JobFailed": "jobFailed",
 	"jobStatus.Condition == trialutil.JobRunning": "jobRunning",
@@ -95,6 +105,7 @@ var verdictAtoms = map[string]string{
 var verdictParams = []string{"jobSucceeded", "jobFailed", "jobRunning", "obsAvailable", "succeeded", "earlyStopped", "metricsUnavailable", "failed", "running", "push", "reportFailed", "hasMessage", "hasReason"}
 
 type guardWalker struct {
+	occ         map[string]int      // occurrence counters of numbered atoms (`name#`)
 	binds       map[string]ast.Expr // identifiers bound exactly once by `x := <expr>` in the function
 	fset        *token.FileSet
 	spec        guardSpec
@@ -111,6 +122,15 @@ func (g *guardWalker) cond(e ast.Expr) string {
 				return "(" + boolToLean(g.fset, rhs, g.spec.atoms, &g.unknown) + ")"
 			}
 		}
+	}
+	// an atom whose name ends in `#` is numbered by occurrence (`err != nil` after different calls)
+	src := nodeSrc(g.fset, e)
+	if a, ok := g.spec.atoms[src]; ok && strings.HasSuffix(a, "#") {
+		if g.occ == nil {
+			g.occ = map[string]int{}
+		}
+		g.occ[a]++
+		return fmt.Sprintf("%s%d", strings.TrimSuffix(a, "#"), g.occ[a])
 	}
 	return boolToLean(g.fset, e, g.spec.atoms, &g.unknown)
 }
